@@ -74,6 +74,8 @@ def _analyse(job, root):
                 with open(p, "w", encoding="utf-8") as f:
                     f.write(text)
             res["runtime"] = P.run_node_project(rundir, run["main"])
+        elif run["kind"] == "java":
+            res["runtime"] = P.run_java_project(os.path.join(root, "javarun"), job["files"], run["driver"])
     pre = install_preprocess_recorder()
     coll = install_taint_collision_recorder()
     pedges = install_param_edge_recorder()
@@ -584,70 +586,105 @@ def compare_pair(lang, base_files, edited_files, res_a, res_b, mp, line_preservi
 def edit_kinds_for(prog):
     lang, origin = prog["lang"], prog["origin"]
     if lang == "python":
-        if origin in ("gen_py", "gen_flow"):
+        if origin in ("gen_py", "gen_flow", "gen_multi"):
             return list(edits.KINDS_PY)
         if origin == "corpus":
             return ["blank-lines", "noop-stmt", "rename-local", "rename-param", "rename-function", "rename-class", "reorder-defs"]
         return ["blank-lines", "noop-stmt", "rename-local", "rename-param"]
-    if origin in ("gen_flow", "template"):
+    if origin in ("gen_flow", "template", "gen_multi"):
         ks = ["blank-lines", "noop-stmt", "reorder-defs"] + [k for k in RENAMES if prog.get("renamable", {}).get(k)]
-        if lang == "javascript" and origin == "gen_flow":
+        if lang == "javascript" and origin in ("gen_flow", "gen_multi"):
             ks.append("move-to-file")       # ES-module import (probed: `require` destructuring is not resolved by the frontend)
         return ks
     return ["blank-lines", "noop-stmt"]
 
 
-def apply_edit(prog, files, kind, seed, first):
-    """One edit on the current text. `first` = nothing has been edited yet (author-declared line ranges still hold)."""
+def apply_edit(prog, files, kind, seed, first, prev=()):
+    """One edit on the current text. `first` = nothing has been edited yet (author-declared line ranges still hold).
+    A planned kind may carry a modifier:
+      move-to-file@lib     move a function out of a library file that OTHER files import (it becomes a re-exporting module)
+      move-to-file@again   move the function that the previous move-to-file step moved, once more (same effect)
+      reorder-defs@reverse the blocks of the first author-declared group in reverse order (subclass before superclass)"""
     rng = random.Random(seed)
     lang = prog["lang"]
+    kind, _, mod = kind.partition("@")
     rel = prog["main"] if prog.get("main") in files and (prog["main"] is not None) else None
     if rel is None or (len(files) > 1 and prog["origin"] == "corpus-dir"):
         rels = sorted(r for r in files if r.endswith(P.EXT[lang]))
         if not rels:
             return None
         rel = rng.choice(rels)
-    multi = prog["origin"] == "corpus-dir"
+    libs = [r for r in prog.get("lib_files", []) if r in files]
+    only = None
+    helper_mode = False
+    if kind == "move-to-file" and mod == "again":
+        last = next((st for st in reversed(prev) if st.kind == "move-to-file"), None)
+        if last is None:
+            return None
+        rel, only, helper_mode = last.detail["helper"], last.detail["function"], True
+    elif kind == "move-to-file" and (mod == "lib" or (libs and rng.random() < 0.5)):
+        if not libs:
+            return None
+        rel, helper_mode = rng.choice(libs), True
+        only = prog.get("lib_functions", {}).get(rel)
+    elif libs and kind in ("blank-lines", "noop-stmt", "rename-local", "rename-param") and rng.random() < 0.3:
+        rel = rng.choice(libs)
+    multi = prog["origin"] == "corpus-dir" or rel != prog.get("main")
     prot = P.PROTECTED
+    st = None
     if lang == "python":
         if kind == "blank-lines":
-            return edits.py_blank_lines(files, rng, rel, dense=True if "import-list" in prog.get("features", ()) and rng.random() < 0.8 else None)
-        if kind == "noop-stmt":
-            return edits.py_noop(files, rng, rel)
-        if kind == "reorder-defs":
-            return edits.py_reorder(files, rng, rel)
-        if kind == "move-to-file":
-            return edits.py_move_to_file(files, rng, rel, protected=prot)
-        return edits.py_rename(files, rng, rel, kind, protected=prot, multi_file=multi)
-    repo = common.REPO
-    if kind == "blank-lines":
-        return edits.ts_blank_lines(lang, files, rng, rel, repo)
-    if kind == "noop-stmt":
-        return edits.ts_noop(lang, files, rng, rel, repo)
-    if kind == "reorder-defs":
-        if not first:
-            return None
-        return edits.ts_reorder(lang, files, rng, rel, repo, prog.get("def_groups", []))
-    if kind == "move-to-file":
-        if not first or lang != "javascript":
-            return None
-        return edits.js_move_to_file(files, rng, rel, repo, prog.get("def_groups", []), protected=prot)
-    names = [n for n in prog.get("renamable", {}).get(kind, []) if n not in prot]
-    return edits.ts_rename(lang, files, rng, rel, repo, names, kind)
+            st = edits.py_blank_lines(files, rng, rel, dense=True if "import-list" in prog.get("features", ()) and rng.random() < 0.8 else None)
+        elif kind == "noop-stmt":
+            st = edits.py_noop(files, rng, rel)
+        elif kind == "reorder-defs":
+            st = edits.py_reorder(files, rng, rel)
+        elif kind == "move-to-file":
+            st = edits.py_move_to_file(files, rng, rel, protected=prot, only=only)
+        else:
+            st = edits.py_rename(files, rng, rel, kind, protected=prot, multi_file=multi)
+    else:
+        repo = common.REPO
+        if kind == "blank-lines":
+            st = edits.ts_blank_lines(lang, files, rng, rel, repo)
+        elif kind == "noop-stmt":
+            st = edits.ts_noop(lang, files, rng, rel, repo)
+        elif kind == "reorder-defs":
+            if not first or rel != prog.get("main"):
+                return None
+            st = edits.ts_reorder(lang, files, rng, rel, repo, prog.get("def_groups", []), reverse=(mod == "reverse"),
+                                  hierarchy=prog.get("hierarchy") or ())
+        elif kind == "move-to-file":
+            if lang != "javascript":
+                return None
+            if helper_mode:
+                st = edits.js_move_to_file(files, rng, rel, repo, None, protected=prot)
+            elif first:
+                st = edits.js_move_to_file(files, rng, rel, repo, prog.get("def_groups", []), protected=prot)
+        else:
+            names = [n for n in prog.get("renamable", {}).get(kind, []) if n not in prot]
+            st = edits.ts_rename(lang, files, rng, rel, repo, names, kind)
+    if st is not None:
+        st.detail = dict(st.detail, planned=kind + ("@" + mod if mod else ""))
+        if kind == "move-to-file" and mod == "again":
+            st.detail["second_move_of_the_same_function"] = True
+    return st
 
 
 def build_pair(prog, kinds, seed):
     """-> (steps, files') or None. Non-Python reordering uses the author's line ranges, so it goes first."""
     if prog["lang"] != "python":
-        # author-declared line ranges only hold for the unedited text: at most one of reorder / move, and it goes first
-        lead = next((k for k in kinds if k in ("reorder-defs", "move-to-file")), None)
+        # author-declared line ranges only hold for the unedited text: at most one of reorder / move out of the main
+        # file, and it goes first (moves out of a library/helper module need no author ranges and stay where they are)
+        needs_ranges = ("reorder-defs", "reorder-defs@reverse", "move-to-file")
+        lead = next((k for k in kinds if k in needs_ranges), None)
         if lead:
-            kinds = [lead] + [k for k in kinds if k not in ("reorder-defs", "move-to-file")]
+            kinds = [lead] + [k for k in kinds if k not in needs_ranges]
     files = dict(prog["files"])
     steps = []
     index = []
     for i, k in enumerate(kinds):
-        st = apply_edit(prog, files, k, seed * 31 + i, first=(not steps))
+        st = apply_edit(prog, files, k, seed * 31 + i, first=(not steps), prev=steps)
         if st is None:
             continue
         steps.append(st)
@@ -681,6 +718,8 @@ def run_spec(prog):
         return {"kind": "python", "main": prog["main"], "entry": prog.get("entry", "main"), "argvecs": [list(a) for a in prog.get("argvecs", [(1, 2, 3)])]}
     if prog["lang"] == "javascript":
         return {"kind": "node", "main": prog["main"]}
+    if prog["lang"] == "java" and prog.get("java_driver"):
+        return {"kind": "java", "driver": prog["java_driver"]}
     return None
 
 
@@ -691,14 +730,28 @@ def select_bases(tier, rng, repo):
     thorough = tier == "thorough"
     bases = []
     off = rng.randrange(1 << 20)
-    n_flow_py, n_genpy, n_flow_js = (12, 8, 8) if not thorough else (260, 160, 150)
+    n_flow_py, n_genpy, n_flow_js = (10, 7, 7) if not thorough else (240, 150, 140)
+    n_multi = (3, 1, 2) if not thorough else (50, 16, 30)          # Python from-import, Python `import lib`, JavaScript
     for i in range(n_flow_py):
         bases.append(P.gen_flow(off + i, "python", import_list=(i % 4 == 0)))
     for i in range(n_genpy):
         bases.append(P.from_gen_py(off + i, import_list=(i % 4 == 1)))
     for i in range(n_flow_js):
         bases.append(P.gen_flow(off + i, "javascript"))
+    for i, b in enumerate(bases):
+        # every third single-file generated program also gets "the same function moved twice" as its first pair
+        if b["origin"] == "gen_flow" and i % 3 == 0:
+            b["forced"] = [["move-to-file", "move-to-file@again"]]
+    for (lang, form), n in zip((("python", "from"), ("python", "module"), ("javascript", "from")), n_multi):
+        for i in range(n):
+            g = P.gen_flow_multi(off + i, lang, form, repo=repo)
+            if g is not None:
+                g["forced"] = [["move-to-file@lib"], ["move-to-file@lib", rng.choice(["blank-lines", "rename-local", "noop-stmt", "move-to-file@again"])]]
+                bases.append(g)
     tpls = P.templates()
+    for t in tpls:
+        if "hierarchy" in t["features"]:
+            t["forced"] = [["reorder-defs@reverse"], ["reorder-defs@reverse", rng.choice(["blank-lines", "rename-local", "noop-stmt"])], ["reorder-defs"]]
     bases += tpls
     corp = P.corpus_files(repo)
     rng.shuffle(corp)
@@ -737,6 +790,8 @@ def plan(bases, tier, rng):
         kinds = edit_kinds_for(prog)
         if prog["origin"] in ("gen_flow", "gen_py"):
             n = 4 if not thorough else 5
+        elif prog["origin"] == "gen_multi":
+            n = 4 if not thorough else 6
         elif prog["origin"] == "template":
             n = 4 if not thorough else 24
         elif prog["origin"] == "corpus":
@@ -754,15 +809,17 @@ def plan(bases, tier, rng):
                 seq = [rng.choice(kinds) for _ in range(ln)]
             if "import-list" in prog.get("features", ()) and j == 1:
                 seq = ["blank-lines"] + [k for k in seq if k != "blank-lines"][:1]
-            # at most one move-to-file per sequence
+            # a second move-to-file of a sequence moves the SAME function once more (out of the module the first move made)
             seen_mv = False
             s2 = []
             for k in seq:
                 if k == "move-to-file":
                     if seen_mv:
-                        continue
+                        k = "move-to-file@again"
                     seen_mv = True
                 s2.append(k)
+            if j < len(prog.get("forced", ())):
+                s2 = list(prog["forced"][j])
             seqs.append(s2)
         for s in seqs:
             out.append((bi, s, rng.randrange(1 << 30)))
@@ -995,6 +1052,24 @@ def main():
         chk.count(f"pairs compared with {len(p['steps'])} edit(s)", 1)
         if prog.get("runnable"):
             chk.count("pairs whose two programs were executed and behaved identically", 1)
+        moves = [s for s in p["steps"] if s.kind == "move-to-file"]
+        reexp = [s for s in moves if s.detail.get("imported_by")]
+        if reexp:
+            chk.count("pairs in which a function that another file imports was moved out (re-export chain)", 1)
+            fns = {s.detail["function"] for s in reexp}
+            if any(e[2] and e[2][-1][2] in fns for e in ra.get("edges", [])):
+                chk.count("re-export pairs whose base call graph has an edge into the moved function", 1)
+            forms = [f for f in prog.get("features", ()) if f.startswith("import-") and f != "import-list"]
+            for f in forms:
+                chk.count(f"re-export pairs: base uses {f}", 1)
+        if any(s.detail.get("second_move_of_the_same_function") for s in moves):
+            chk.count("pairs with two moves of the same function", 1)
+        if any(s.kind == "reorder-defs" and s.detail.get("subclass_before_superclass") for s in p["steps"]):
+            chk.count("pairs whose reordering put a subclass before its superclass", 1)
+            if any(e[2] and e[2][-1][2] in ("run", "store") for e in ra.get("edges", [])):
+                chk.count("subclass-first pairs whose base call graph has an edge into an inherited method", 1)
+        if "hierarchy" in prog.get("features", ()) or "hierarchy-fixed-order" in prog.get("features", ()):
+            chk.count("pairs on class hierarchies with calls to inherited methods", 1)
         if sizes is not None:
             ne = [t for t in TABLES if sizes[t] > 0]
             for t in ne:
@@ -1026,7 +1101,7 @@ def main():
                 built = ([st], st.files)          # the first edit alone is exactly the pair's first step
             else:
                 try:
-                    one = apply_edit(prog, dict(prog["files"]), st.kind, p["seed"] * 31 + p["step_index"][k], first=True)
+                    one = apply_edit(prog, dict(prog["files"]), st.detail.get("planned", st.kind), p["seed"] * 31 + p["step_index"][k], first=True)
                 except RecursionError:
                     one = None
                 built = ([one], one.files) if one is not None else None
@@ -1071,6 +1146,12 @@ def main():
     chk.require("pairs whose two programs were executed and behaved identically", 50 * q)
     chk.require("pairs whose base has an `import a, b` statement", 6 * q)
     chk.require("source texts seen by the recording wrapper on lian's text preprocessing (ORIGINAL_SOURCE_CODE_READY)", 30 * q)
+    chk.require("pairs in which a function that another file imports was moved out (re-export chain)", 8 if not thorough else 150)
+    chk.require("re-export pairs whose base call graph has an edge into the moved function", 4 if not thorough else 80)
+    chk.require("pairs with two moves of the same function", 3 if not thorough else 60)
+    chk.require("pairs whose reordering put a subclass before its superclass", 4 if not thorough else 12)
+    chk.require("subclass-first pairs whose base call graph has an edge into an inherited method", 3 if not thorough else 10)
+    chk.require("pairs on class hierarchies with calls to inherited methods", 10 if not thorough else 60)
     chk.require("pairs compared: origin corpus", 6 * q)
     chk.require("pairs compared: origin template", 12 if not thorough else 60)
     chk.assumptions += [
@@ -1079,7 +1160,11 @@ def main():
         "an edit counts as meaning-preserving when the editor's static proof holds (Python: ast equality modulo the edit + symtable "
         "agreement for renames; other languages: tree-sitter token sequence equal modulo the edit, inserted empty statement directly "
         "inside a block) AND, for generated Python/JavaScript programs, CPython/node produce identical out()/sink() records and return values",
-        "Java/Go/C/PHP/TypeScript templates and corpus programs are not executed (no go/php/tsc here): reordering relies on the languages' "
+        "the Java class-hierarchy templates are compiled and run (javac/java, sink/out redirected to a recorder) for the base and every "
+        "edited version, so a permutation that puts a subclass before its superclass is confirmed valid and behaviour-preserving; the PHP "
+        "hierarchy template relies on PHP's rule that a parentless class is hoisted (no php binary here); TypeScript/JavaScript classes are "
+        "never permuted across an `extends` edge (class declarations are not hoisted there)",
+        "the other Java/Go/C/PHP/TypeScript templates and corpus programs are not executed (no go/php/tsc here): reordering relies on the languages' "
         "declaration hoisting rules and on the template author's independence declaration",
         "taint rules name parameters/functions only (no file, no line); identifiers named in rules (main, tainted, sink, ...) are never renamed",
         "results standing on inserted lines (the no-op statement itself, the new import statement) are not part of the comparison",
